@@ -158,7 +158,10 @@ fn main() {
                     let d = judge::dist(&dst.cmp_vec(got), &dst.cmp_vec(want));
                     let tol = judge::tolerance(src, dst, &x, is32);
                     let ratio = d / tol;
-                    if ratio > worst_ratio {
+                    if !matches!(src, Space::Oklab | Space::Oklch | Space::Okhsl | Space::Okhsv | Space::Okhwb) && !matches!(dst, Space::Oklab | Space::Oklch | Space::Okhsl | Space::Okhsv | Space::Okhwb) && tol < 1e-2 * dst.scale() {
+                        m.counter_max(if is32 { "max:ratio_milli_f32_non_ok" } else { "max:ratio_milli_f64_non_ok" }, if d <= tol { (ratio * 1000.0) as u64 } else { 0 });
+                    }
+                    if ratio > worst_ratio && d <= tol {
                         worst_ratio = ratio;
                         m.max_dev = ratio;
                         m.argmax = Some(json!({"pair": inst, "x": fvec(&x), "got": fvec(&got), "model": fvec(&want), "deviation": fjson(d), "tolerance": tol}));
